@@ -191,10 +191,17 @@ where
         let channel = endpoint::IncomingChannel(channel);
         let remote_open = match body {
             FrameBody::Open(open) => open,
-            FrameBody::Close(close) => match close.error {
-                Some(error) => return Err(OpenError::RemoteClosedWithError(error)),
-                None => return Err(OpenError::RemoteClosed),
-            },
+            FrameBody::Close(close) => {
+                // The peer refuses the connection with a Close instead of its Open. It is
+                // recorded like any other incoming Close (CLOSE_RCVD) so that it is answered
+                // and no further Close is awaited
+                let error = close.error.clone();
+                let _ = self.connection.on_incoming_close(channel, close);
+                match error {
+                    Some(error) => return Err(OpenError::RemoteClosedWithError(error)),
+                    None => return Err(OpenError::RemoteClosed),
+                }
+            }
             _ => return Err(OpenError::IllegalState),
         };
 
